@@ -812,6 +812,21 @@ impl Xot {
                         content,
                         span: _,
                     } => {
+                        // the target has to be separated from the content by
+                        // whitespace; the tokenizer does not insist on it
+                        if let Some(content) = content {
+                            if content.start() == target.end() {
+                                let c = content.as_str().as_bytes()[0];
+                                let pos = xmlparser::TextPos::new(1, content.start() as u32 + 1);
+                                return Err(ParseError::XmlParser(
+                                    xmlparser::Error::InvalidPI(
+                                        xmlparser::StreamError::InvalidSpace(c, pos),
+                                        pos,
+                                    ),
+                                    content.start(),
+                                ));
+                            }
+                        }
                         let node_id = builder.processing_instruction(
                             target.as_str(),
                             content.map(|s| s.as_str()),
